@@ -52,11 +52,7 @@ Print Assumptions C29_restartable.
 
 (* ---- witnesses ------------------------------------------------------ *)
 
-Fixpoint same_instant (n : nat) : list tcmd :=
-  match n with O => [] | S k => same_instant k ++ [TDo (SSched Now (Z.of_nat k) [])] end.
-
-Definition count_runs (l : list oev) : nat :=
-  length (filter (fun o => match o with ORun _ _ => true | _ => false end) l).
+(* [same_instant n]: n actions scheduled for the current instant; [count_runs]: Core/VTimeFacts.v *)
 
 (* 300 actions at one instant, datetime clock: start returns, all 300 ran, the
    clock was bumped twice by 1000 us; a second start runs a later action *)
